@@ -26,13 +26,8 @@ theorem C04_lbp_table (t : Tok) : Generated.lbp t = Tok.lbp t := by
 
 theorem C04_projection_stop_const : Generated.projectionStop = Parser.projectionStop := rfl
 
-/-- the binding power at every `expr` / `projection_rhs` / `parse_dot` call site of parser.rs is
-the one the model (and the grammar) uses -/
-theorem C04_call_sites :
-    Generated.sites = { nud_expref := 0, nud_not := 45, nud_paren := 0, led_or := 2, led_and := 3,
-                        led_pipe := 1, led_dot := 40, cmp := 5, kvp := 0, filter_pred := 0,
-                        filter_rhs := 21, flatten_rhs := 9, wild_index_rhs := 20,
-                        wild_values_rhs := 20, slice_rhs := 20, list_elem := 0, top := 0 } := rfl
+/- (The binding power passed at every call site of the parser used to be pattern-matched out of parser.rs and pinned here; it is now a
+consequence of `C04_translated_parser` (`Props/C04Code.lean`): the whole parser is re-translated from the source and proved equal to the model.) -/
 
 /-- the documented order: pipe < or < and < comparison < flatten < wildcard < filter < dot < not < bracket < call -/
 theorem C04_documented_order :
@@ -148,7 +143,6 @@ theorem C04_ast_vocabulary :
 end JmesVerif
 
 #print axioms JmesVerif.C04_lbp_table
-#print axioms JmesVerif.C04_call_sites
 #print axioms JmesVerif.C04_documented_order
 #print axioms JmesVerif.C04_parse_is_rule_tree
 #print axioms JmesVerif.C04_unambiguous
